@@ -340,9 +340,10 @@ class OpQuantizationConfig:
   def from_dict(cls, params: dict[str, Any]) -> 'OpQuantizationConfig':
     """Converts a given dict to OpQuantizationConfig."""
     params_copy = copy.deepcopy(params)
-    params_copy['weight_tensor_config'] = TensorQuantizationConfig.from_dict(
-        params_copy['weight_tensor_config']
-    )
+    if 'weight_tensor_config' in params_copy:
+      params_copy['weight_tensor_config'] = TensorQuantizationConfig.from_dict(
+          params_copy['weight_tensor_config']
+      )
     if 'activation_tensor_config' in params_copy:
       params_copy['activation_tensor_config'] = (
           TensorQuantizationConfig.from_dict(
